@@ -56,6 +56,8 @@ VALUES = ['0', '1', '-1', '5', '3', '5.0', '5.0004', '5.002', '4.9995', '5000000
           "{'a': 1}", "{'a': 1.0004}", '{}', '{1, 2}', 'set()', "{'k': [1, {'z': 2.0}]}", "{'k': [1, {'z': 2.0003}]}",
           '(1+0j)', "[1, 'a', None]", 'frozenset({1})', '{3}', "float('nan')", "float('inf')", "-float('inf')",
           "{'A': 1}", "{1.0: 'x'}", "{1.0004: 'x'}", '{1.0, 1.0004}', '{1.0, 2.0}', "b'a'", "b'b'", 'Rec(1)', 'Rec(2)', 'Rec(1.0004)', 'Rec(1.0)']
+# ints Python refuses to print (the factorial of a few thousand has that many digits): still comparable
+HUGE = ['10 ** 5000', '10 ** 5000 + 1', '5', "'a'", 'None', '[10 ** 5000]', '[10 ** 5000 + 1]', 'True']
 IDENTITY_STABLE = {'None', 'True', 'False', '0', '1', '-1', '5', '3'}
 LENGTHS = ['0', '1', '2', '3', "'a'", 'None', '2.0']
 CLASSES = ['int', 'float', 'str', 'list', 'tuple', 'dict', 'set', 'bool', 'type(None)', 'object', '(list, tuple)']
@@ -801,6 +803,11 @@ def table(tier):
                 yield {'kind': 'binary', 'family': fam, 'a': a, 'b': b, 'exact': True}
             else:
                 yield {'kind': 'binary', 'family': fam, 'a': a, 'b': b}
+    for fam in ('equal', 'less', 'greater_equal', 'in'):
+        for a, b in itertools.product(HUGE, HUGE):
+            if '5000' not in (a + b):
+                continue
+            yield dict({'kind': 'binary', 'family': fam, 'a': a, 'b': b}, **({'exact': False} if fam == 'equal' else {}))
     # the tolerance as a parameter: the default spelled None, none at all, a wide and a narrow one
     numeric = ['5', '5.0', '5.0004', '5.002', '5.4', '6', "float('inf')", "float('nan')", '[1.0, 2.0]', '[1.0004, 2.4]', '(5.0, 6)', '(5.4, 6.0)',
                "{'k': 5.0}", "{'k': 5.4}", '{1.0, 2.0}', '{1.0004, 2.4}', 'Rec(1)', 'Rec(1.4)', 'True', "'5.0'", 'None', ERR]
